@@ -137,6 +137,17 @@ def write_evidence(prop, tier, check, meta, wall, violations, known, extra=None)
                                                    "the stdlib facts listed under assumptions"]),
         "exhaustive": False,
     }
+    import hashlib
+    prog = check.prog
+    cov["program"] = {
+        "source": "/repo/jsonrpclib/*.py as found on disk at the start of this run (parsed with ast; nothing imported or executed)",
+        "modules": dict((name, hashlib.sha1(m.text.encode("utf-8")).hexdigest()[:12]) for name, m in sorted(prog.modules.items())),
+        "functions": len(prog.funcs), "classes": len(prog.classes),
+        "helpers_expanded_inline": dict((name, m.inlined) for name, m in prog.modules.items() if getattr(m, "inlined", None)),
+    }
+    cov["rules_with_counts"] = dict((r, {"instances": len([o for o in obl if o["rule"] == r]),
+                                         "discharged": len([o for o in obl if o["rule"] == r and o["ok"]])})
+                                    for r in sorted(set(o["rule"] for o in obl)))
     if extra:
         cov.update(extra)
     ev = {
